@@ -41,7 +41,10 @@ ASSUMPTIONS = [
     "counts: direct oracle only, the pieces must lie inside the region they were cut from within 1e-9 of the die's extent, overlap by "
     "at most (1e-9 extent)^2 and cover each former region within 1e-9 of its area; counts, tags and aspect ratios exactly on the floats); "
     "process state: when another die was built first (it defines the class-wide Rectangle tolerances) or the coordinates are decimal, the "
-    "refinement is judged only if the regions it starts from do not overlap (how a die is decomposed under foreign tolerances is C01 / C20)",
+    "refinement is judged only if the regions it starts from do not overlap (how a die is decomposed under foreign tolerances is C01 / C20); "
+    "the other die is up to 10^13 times larger or smaller (foreign distance tolerance up to 100 times the judged die's extent: its "
+    "constructor then mostly refuses it - not judged here - or builds lists that do not tile it: a history from such a start is compared "
+    "step by step with trace_ok, the start invariant die_inv is not claimed); refinement itself reads no tolerance and is judged exactly",
     "histories: the model of a call is a function of the object's five lists before the call and of the call's own arguments "
     "(DieOps.step_ok); a history is cut before the first split whose rounded aspect-ratio test would decide differently from the "
     "exact quotient (float-boundary, counted); a history whose grid cells are not binary fractions is compared step by step "
